@@ -2104,6 +2104,9 @@ func rsFlattenR(ev string) []rsSent {
 }
 
 func rsFlattenDesc(mid uint64, seq uint32, desc string, depth int) []rsSent {
+	if desc == "cont()" && depth >= rsMaxContainerDepth {
+		return []rsSent{{mid, seq, "toodeep"}} // an empty container is a container: refused at the fifth level like any other
+	}
 	if !strings.HasPrefix(desc, "cont[") {
 		return []rsSent{{mid, seq, desc}}
 	}
